@@ -1208,16 +1208,26 @@ impl<T: PPGEvaluatorStrategy> PPGEvaluator<T> {
     }
 
     fn process_signals(&mut self, depth: u32) -> Result<(), PPGEvaluatorError> {
-        debug!("");
-        debug!("Process signals, depth {}", depth);
-        let res = self.inner_process_signals(depth);
-        debug!("Leaving process signals, {}", depth);
-        res
+        // one iteration per wave of signals. A loop, not a recursion: a cascade (an up to
+        // date chain, an upstream failure) needs as many waves as the graph is deep.
+        let mut depth = depth;
+        loop {
+            debug!("");
+            debug!("Process signals, depth {}", depth);
+            let res = self.inner_process_signals(depth);
+            debug!("Leaving process signals, {}", depth);
+            res?;
+            if self.signals.is_empty() {
+                return Ok(());
+            }
+            depth += 1;
+        }
     }
 
     fn inner_process_signals(&mut self, depth: u32) -> Result<(), PPGEvaluatorError> {
-        if depth > 1500 {
-            return Err(PPGEvaluatorError::InternalError("Depth ConsiderJob loop. Either pathological input, or bug. Aborting to avoid stack overflow".to_string()));
+        // guards against a signal loop (a bug), not against deep graphs.
+        if depth as usize > 1500 + 20 * self.jobs.len() {
+            return Err(PPGEvaluatorError::InternalError("Depth ConsiderJob loop. Either pathological input, or bug. Aborting to avoid an endless loop".to_string()));
         }
         let mut new_signals = Vec::new();
         let mut ignore_consider_signals = HashSet::new();
@@ -1669,9 +1679,6 @@ impl<T: PPGEvaluatorStrategy> PPGEvaluator<T> {
                 self.signals.push_back(s);
             }
             //self.signals.extend(new_signals.drain(..));
-        }
-        if !self.signals.is_empty() {
-            self.process_signals(depth + 1)?;
         }
         Ok(())
     }
